@@ -309,3 +309,81 @@ def build_joint(js: dict):
     routine = {"tc": "joint_time_course", "ptc": "joint_protocol_time_course", "ssc": "joint_steady_state"}[kind]
     p0 = {"k1": float(js["jc"]) * (1.0 if kind == "ssc" else LN2)}
     return routine, to_fit, kwargs, p0
+
+
+# ---- ensemble / carousel fits (FitEnsemble.tla) -------------------------------------------------------
+def mass_action_x2(k, x):
+    """The mis-specified member: twice the rate."""
+    return 2.0 * k * x
+
+
+def doubled_steady_state(updates, settings):
+    from mxlpy.fit.routines import steady_state_residual
+
+    return 2.0 * steady_state_residual(updates, settings)
+
+
+def doubled_time_course(updates, settings):
+    from mxlpy.fit.routines import time_course_residual
+
+    return 2.0 * time_course_residual(updates, settings)
+
+
+def doubled_protocol_time_course(updates, settings):
+    from mxlpy.fit.routines import protocol_time_course_residual
+
+    return 2.0 * protocol_time_course_residual(updates, settings)
+
+
+def norm_ensemble(p: dict) -> dict:
+    q = dict(p)
+    q["mem"] = [int(m) for m in seq(p["mem"])]
+    q["data"] = [seq(g) for g in seq(p["data"])]
+    q["pred"] = [[seq(g) for g in seq(t)] for t in seq(p["pred"])]
+    q["exp"] = [dict(e) for e in seq(p["exp"])]
+    q["times"] = [int(t) for t in seq(p["times"])]
+    q["prot"] = [{"dur": int(s["dur"]), "A": dict(s["A"])} for s in seq(p["prot"])]
+    return q
+
+
+def build_ensemble(es: dict, as_carousel: bool):
+    """Real arguments for a FitEnsemble.tla scenario. Returns (routine name, first argument, kwargs, p0)."""
+    import pandas as pd
+    from mxlpy import Model, make_protocol
+    from mxlpy.carousel import Carousel, ReactionTemplate
+    from mxlpy.fit import losses
+
+    kind, opt = es["kind"], es["opt"]
+    fns = {1: mass_action, 2: mass_action_x2}
+
+    def member(mult: int) -> Model:
+        m = Model()
+        if kind == "ssc":
+            m.add_variables({"x1": float(fr(opt["minit"])), "x2": float(fr(es["x2"]))})
+            m.add_parameters({"k1": float(es["jt"]), "k2": 1.0})
+            m.add_reaction("dec", fns[mult], args=["k1", "x1"], stoichiometry={"x1": -1.0, "x2": 1.0})
+            m.add_reaction("v2", mass_action, args=["k2", "x2"], stoichiometry={"x2": -1.0, "x1": 1.0})
+        else:
+            a0 = es["A"] if kind == "tc" else es["prot"][0]["A"]
+            m.add_variable("x1", float(fr(opt["minit"])))
+            m.add_parameters({"a1": float(fr(a0)) * LN2, "k1": float(es["jt"]) * LN2})
+            m.add_reaction("in1", const, args=["a1"], stoichiometry={"x1": 1.0})
+            m.add_reaction("dec", fns[mult], args=["k1", "x1"], stoichiometry={"x1": -1.0})
+        return m
+
+    if kind == "ssc":
+        data = pd.Series({"x1": float(fr(es["data"][0][0])), "x2": float(fr(es["data"][0][1]))})
+    else:
+        data = pd.DataFrame({"x1": [float(fr(v)) for v in es["data"][0]]}, index=[float(t) for t in es["times"]])
+    stem = {"tc": "time_course", "ptc": "protocol_time_course", "ssc": "steady_state"}[kind]
+    y0 = _opt(opt["y0"])
+    kwargs = {"data": data, "loss_fn": getattr(losses, opt["loss"]), "y0": None if y0 is None else {"x1": y0}}
+    if opt["resid"] == "doubled":
+        kwargs["residual_fn"] = globals()[f"doubled_{stem}"]
+    if kind == "ptc":
+        kwargs["protocol"] = make_protocol([(float(s["dur"]), {"a1": float(fr(s["A"])) * LN2}) for s in es["prot"]])
+    p0 = {"k1": float(es["jc"]) * (1.0 if kind == "ssc" else LN2)}
+    if as_carousel:
+        first = Carousel(member(1), {"dec": [ReactionTemplate(fn=fns[m], args=["k1", "x1"]) for m in es["mem"]]})
+        return f"carousel_{stem}", first, kwargs, p0
+    return f"ensemble_{stem}", [member(m) for m in es["mem"]], kwargs, p0
